@@ -581,7 +581,13 @@ func (a *Application) startProxyGoroutine(
 		// headersReady is never closed and the main goroutine blocks forever.
 		// Ensure it is always signalled before closing the pipe.
 		streamRecorder.ensureHeadersReady()
-		pipeWriter.Close() // Signal end of stream
+		if err != nil {
+			// the reader must see that the stream broke, not a clean end of stream:
+			// otherwise the translator finishes it off as a complete message
+			pipeWriter.CloseWithError(err)
+		} else {
+			pipeWriter.Close() // Signal end of stream
+		}
 		proxyErrChan <- err
 	}()
 	return proxyErrChan
